@@ -455,9 +455,13 @@ fn consume_expr<'i>(
                         }
                     }
                     Rule::insensitive_string => {
-                        let string = unescape(pair.as_str()).expect("incorrect string literal");
+                        // `insensitive_string = { "^" ~ string }` is not atomic: whitespace and
+                        // comments may separate `^` from the literal, so the literal is read
+                        // from the inner `string` pair, not from the whole text.
+                        let literal = pair.clone().into_inner().next().unwrap();
+                        let string = unescape(literal.as_str()).expect("incorrect string literal");
                         ParserNode {
-                            expr: ParserExpr::Insens(string[2..string.len() - 1].to_owned()),
+                            expr: ParserExpr::Insens(string[1..string.len() - 1].to_owned()),
                             span: pair.clone().as_span(),
                         }
                     }
